@@ -8,6 +8,7 @@ specs/Clash.tla and every verdict is made by Trace_Clash.tla."""
 import contextlib
 import csv as _csv
 import io
+import shutil
 import json
 import os
 import random
@@ -111,7 +112,8 @@ def multi_abstract(rng, palette, dense=False):
     rng.shuffle(test)
     return {"fam": "multi", "axis": rng.randrange(3), "test": test,
             "res": [{"chain": "A", "nuc": rng.random() < 0.6},
-                    {"chain": rng.choice("AB"), "nuc": rng.random() < 0.6, "ins": rng.random() < 0.3}]}
+                    {"chain": rng.choice("AB"), "nuc": rng.random() < 0.6, "ins": rng.random() < 0.3,
+                     "lig": rng.random() < 0.3}]}
 
 
 # ------------------------------------------------------------------ materialisation
@@ -129,6 +131,8 @@ def materialise(ab, shuffle_seed=0):
     integers in 0.01 A on one line, carried along axis ab['axis'])."""
     res = [{"chain": r["chain"], "number": k + 1, "icode": None, "resname": ("G", "C")[k] if r["nuc"] else "LIG",
             "want_nuc": r["nuc"]} for k, r in enumerate(ab["res"])]
+    if len(res) == 2 and ab["res"][1].get("lig") and res[1]["want_nuc"]:
+        res[1]["lig"], res[1]["resname"] = True, "2BA"          # a nucleotide ligand (non-polymer entity in mmCIF)
     if len(res) == 2 and ab["res"][1].get("ins") and res[0]["chain"] == res[1]["chain"]:
         res[1]["number"], res[1]["icode"] = res[0]["number"], "A"       # residues N and N^A
     per = {k + 1: [] for k in range(len(res))}
@@ -156,7 +160,7 @@ def materialise(ab, shuffle_seed=0):
             xyz[ab["axis"]] = float("%.3f" % (a["x"] / 100))
             atoms.append({"r": len(keep), "name": a["name"], "occ": a["occ"], "x": a["x"], "xyz": tuple(xyz),
                           "test": a["test"]})
-    return {"res": [res[k] for k in keep], "atoms": atoms}
+    return {"res": [res[k] for k in keep], "atoms": atoms, "entities": True}
 
 
 def build_objects(st):
@@ -379,7 +383,16 @@ def write_cif(st, path):
             "label_entity_id", "label_seq_id", "pdbx_PDB_ins_code", "Cartn_x", "Cartn_y", "Cartn_z", "occupancy",
             "B_iso_or_equiv", "auth_seq_id", "auth_comp_id", "auth_asym_id", "auth_atom_id", "pdbx_PDB_model_num"]
     out = ["data_verif", "#", "_exptl.entry_id verif", "_exptl.method 'X-RAY DIFFRACTION'", "#",
-           "_refine.entry_id verif", "_refine.ls_d_res_high 2.00", "#", "loop_"]
+           "_refine.entry_id verif", "_refine.ls_d_res_high 2.00", "#"]
+    ent = {k: ("2" if r.get("lig") else "1") for k, r in enumerate(st["res"])}
+    if st.get("entities"):
+        # entity tables as deposited files carry them: the chain residues are a polyribonucleotide polymer, a
+        # nucleotide LIGAND (e.g. c-di-AMP) sits in a non-polymer entity of its own
+        seq = "".join(r["resname"] if len(r["resname"]) == 1 else "N" for r in st["res"])
+        out += ["loop_", "_entity.id", "_entity.type", "1 polymer", "2 non-polymer", "#",
+                "_entity_poly.entity_id 1", "_entity_poly.type polyribonucleotide",
+                "_entity_poly.pdbx_seq_one_letter_code_can " + seq, "#"]
+    out += ["loop_"]
     out += ["_atom_site." + c for c in cols]
     serial = 0
     for k, r in enumerate(st["res"]):
@@ -388,7 +401,8 @@ def write_cif(st, path):
                 continue
             serial += 1
             occ = "." if a["occ"] is None else "%.2f" % (a["occ"] / 100)
-            row = ["ATOM", serial, a["name"][0], a["name"], ".", r["resname"], r["chain"], "1", k + 1,
+            row = ["HETATM" if r.get("lig") else "ATOM", serial, a["name"][0], a["name"], ".", r["resname"], r["chain"],
+                   ent[k], "." if r.get("lig") else k + 1,
                    r.get("icode") or "?", "%.3f" % a["xyz"][0], "%.3f" % a["xyz"][1], "%.3f" % a["xyz"][2], occ,
                    "10.00", r["number"], r["resname"], r["chain"], a["name"], 1]
             out.append(" ".join(_q(v) for v in row))
@@ -500,8 +514,13 @@ def record_cli(case, scratch_dir):
     structure as main read it, distances measured), <id>/csv (a second run with --csv)."""
     o = OPTIONS[case["opt"]]
     base = os.path.join(scratch_dir, re.sub(r"[^A-Za-z0-9_.-]", "_", case["id"]))
-    path = base + ("." + case["fmt"])
-    (write_pdb if case["fmt"] == "pdb" else write_cif)(case["st"], path)
+    if case.get("corpus"):
+        # a file of the repository's test corpus, copied as it is (entity tables, ligands, hetero groups)
+        path = base + os.path.splitext(case["corpus"])[1]
+        shutil.copyfile(os.path.join(lib.REPO, "tests", case["corpus"]), path)
+    else:
+        path = base + ("." + case["fmt"])
+        (write_pdb if case["fmt"] == "pdb" else write_cif)(case["st"], path)
     recs = []
     # ---- run 1: report on stdout
     err, text, seen = run_main(path, o)
@@ -511,19 +530,30 @@ def record_cli(case, scratch_dir):
             seen = _fallback_call(path, o)
         except Exception:
             seen = {"residues": [], "out": []}
-    atoms, res, rid, aid, xyz = _record_struct(seen["residues"])
-    rname, aname = _names_of(seen["residues"])
+    # the atoms the definition is evaluated on are those of the FILE (first model), read independently of main:
+    # whatever main does before it calls find_clashes must not lose a clash of the file
+    from rnapolis.parser import read_3d_structure
+    try:
+        with open(path) as f:
+            ref = read_3d_structure(f, 1).residues
+    except Exception:
+        ref = seen["residues"]
+    atoms, res, rid, aid, xyz = _record_struct(ref)
+    rname, aname = _names_of(ref)
     if 0 in rname.values() or 0 in aname.values():
         # printed residue / atom names do not identify the atoms of this input uniquely: the
         # report cannot be mapped back to atoms, so the input is unusable for the CLI clauses
         os.remove(path)
         return []
     try:
-        lib_list = _project_list(seen["out"], rid, aid)
+        lib_list = []
+        for (ri, ai), (rj, aj), sm in seen["out"]:
+            i, j = rname.get(str(ri), 0), rname.get(str(rj), 0)
+            lib_list.append([i, aname.get((i, ai.name), 0), j, aname.get((j, aj.name), 0), int(round(float(sm) * 1000))])
     except Exception:
         lib_list, err = [], err or "UnexpectedResultShape"
     chains, residues, atomlines, unparsed = _parse_stdout(text, rname, aname)
-    src = dict(case.get("src", {}), fmt=case["fmt"], opt=case["opt"])
+    src = dict(case.get("src", {}), fmt=case.get("fmt", "corpus"), opt=case["opt"])
     recs.append({"id": case["id"] + "/cli", "kind": "cli", "o": o, "err": err, "atoms": atoms, "res": res,
                  "lib": lib_list, "lib_captured": captured, "chains": chains, "residues": residues,
                  "atomlines": atomlines, "unparsed": unparsed, "src": src, "stdout_head": text.splitlines()[:6]})
